@@ -202,7 +202,10 @@ def _count_warn(case, warn):
     with warnings.catch_warnings(record=True) as rec:
         warnings.simplefilter("always")
         _call_ionic(case["form"], case["entries"], case["units"], False, warn=warn)
-    return [str(w.message) for w in rec if "neutral" in str(w.message)]
+    # recognised by role, not by wording: any warning issued during the call counts, except the categories that are about the code itself
+    # (pyparsing's deprecation warnings under the formula parser, ...) and so cannot be the charge-imbalance warning
+    about_code = (DeprecationWarning, PendingDeprecationWarning, FutureWarning, ImportWarning, ResourceWarning, SyntaxWarning, BytesWarning)
+    return [str(w.message) for w in rec if not issubclass(w.category, about_code)]
 
 
 def check_warn(case):
